@@ -171,7 +171,7 @@ package apd
 //@   trusted math/big documented semantics (bit 0 is the parity, also in two's complement; panics for a negative index)
 //@   requires i >= 0
 //@   pure
-//@   ensures (ret == 0 || ret == 1) && (i == 0 ==> ret == mod(val(x), 2))
+//@   ensures (ret == 0 || ret == 1) && (i == 0 ==> ret == mod(val(x), 2)) && ret == uf_bit(val(x), i)
 //@ func math/big.(*Int).BitLen
 //@   trusted math/big documented semantics
 //@   pure
@@ -325,7 +325,7 @@ package apd
 //@   props C16
 //@   requires rep(z) && i >= 0
 //@   pure
-//@   ensures (ret == 0 || ret == 1) && (i == 0 ==> ret == mod(val(z), 2))
+//@   ensures (ret == 0 || ret == 1) && (i == 0 ==> ret == mod(val(z), 2)) && (i != 0 ==> ret == uf_bit(val(z), i))
 
 //@ func (*BigInt).BitLen
 //@   layer bigint
